@@ -11,7 +11,16 @@ Inductive case_C02 : Type :=
 | CMsg (rt : N) (ecu : char4) (ts htyp mcnt len : N) (ext : option (N * N * char4 * char4)) (payload : list (N * list N))
     (* DltMessage built field by field; to_write *)
 | CExport (specs : list (N * N * N * bool * N))
-| CExportRuns (t0 : N) (runs : list (N * N * bool)).
+| CExportRuns (t0 : N) (runs : list (N * N * bool))
+| CExportOver (pre : option (list (N * N * N * bool * N) * N * list (N * list N)))
+              (chain : list (list (N * N * N * bool * N)))
+              (pre2 : option (list (N * N * N * bool * N) * N * list (N * list N)))
+    (* the state of the `-o` path before the command is part of the input.  [pre]: the path out.dlt before the first
+       command -- None = absent, Some (specs, cut, junk) = a file holding to_write of the messages [specs] without its last
+       [cut] bytes, followed by the junk bytes (Some ([], 0, []) = an empty file).  [chain]: the files in_1 .. in_n (each as in
+       CExport) exported one after the other to the SAME path: `adlt convert -o out.dlt in_k.dlt`, k = 1..n.  Then the export of
+       the export, `adlt convert -o out2.dlt out.dlt`, with out2.dlt in state [pre2] before. *)
+| CExportPlugin (pre : option (list (N * N * N * bool * N) * N * list (N * list N))) (specs : list (N * N * N * bool * N)).
     (* a large file described run-length: run (count, frame size, with timestamp) = count consecutive messages of
        that many bytes each (storage header + standard header [+ timestamp] + payload); message i (numbered through the
        file) of ECU1 is received at t0 + i s with timestamp i s, mcnt = i mod 256, payload = LE32 of i (cut to the payload
@@ -94,6 +103,37 @@ Definition export_obs_slow (inp : bytes) : otree :=
 Definition export_obs_fast (ms : list msg) (inp : bytes) : otree :=
   T [L 8; o_bigfile inp; o_bigfile inp; T [L (N.of_nat (length ms)); ob (mcnt_seq 0 ms); L 0]; L 1].
 
+(* ---- the `-o` path as an input (CExportOver) *)
+Definition prior_path (p : option (list (N * N * N * bool * N) * N * list (N * list N))) : fs_path :=
+  match p with
+  | None => None
+  | Some (specs, cut, junk) =>
+      let f := match write_all (spec_msgs 0 specs) with Ok (WOk b) => b | _ => [] end in
+      Some (firstn (length f - N.to_nat cut) f ++ bytes_of_segs junk)
+  end.
+(* a path: absent / length + checksum, the message counters of the messages it re-reads to, bytes left over *)
+Definition o_path (p : fs_path) : otree :=
+  match p with
+  | None => L 0
+  | Some b => T [o_file b;
+                 match run_iter 0 b with Ok (ms, _, rest) => T [T (map (fun m => L (mcnt (m_std m))) ms); L (blen rest)] | _ => L 1 end]
+  end.
+Definition o_rpath (p : res fs_path) : otree := match p with Ok s => o_path s | _ => L 1 end.
+Definition spec_file (specs : list (N * N * N * bool * N)) : bytes :=
+  match write_all (spec_msgs 0 specs) with Ok (WOk b) => b | _ => [] end.
+Definition export_over_obs (pre : fs_path) (chain : list bytes) (pre2 : fs_path) : otree :=
+  let states := convert_o_chain pre chain in
+  let out := match last states (Ok pre) with Ok s => s | _ => None end in
+  T [L 10; T [match pre with None => L 0 | Some b => o_file b end; match pre2 with None => L 0 | Some b => o_file b end];
+     T (map (fun x => T [o_file (fst x); o_rpath (snd x)]) (combine chain states));
+     match out with
+     | Some a => match convert_o_path pre2 a with
+                 | Ok (Some b) => T [o_file b; ob (bytes_eqb a b)]
+                 | _ => L 2
+                 end
+     | None => L 3
+     end].
+
 Definition run_C02 (c : case_C02) : otree :=
   match c with
   | CStream start segs =>
@@ -145,5 +185,14 @@ Definition run_C02 (c : case_C02) : otree :=
           if forallb wf_msgb ms && (N.of_nat (length ms) <=? u32max) then export_obs_fast ms inp else export_obs_slow inp
       | _ => T [L 7]
       end
+  | CExportOver pre chain pre2 => export_over_obs (prior_path pre) (map spec_file chain) (prior_path pre2)
+  | CExportPlugin pre specs =>
+      (* library level (plugins/export.rs, no filters): not a model of the plugin -- its writer contract only: the file
+         named in the configuration is removed when the plugin is built and (re)created with File::create at the first
+         message exported; after the info messages (VsDl/Info) it holds to_write of every message processed, in order;
+         no message processed: the path is absent *)
+      let inp := spec_file specs in
+      T [L 11; match prior_path pre with None => L 0 | Some b => o_file b end; o_file inp;
+         match specs with [] => L 0 | _ => o_path (Some inp) end]
   end.
 Definition agree_C02 : case_C02 -> otree -> bool := agree_det run_C02.
